@@ -73,6 +73,7 @@ type Ledger struct {
 
 	mu             sync.Mutex
 	onFunded       func(who string, req channel.FundingReq)
+	failWithdraw   map[string]int                 // who -> number of Withdraw calls that still fail (transient fault injection)
 	accounts       map[string]map[uint64]*big.Int // wallet address key -> asset -> balance
 	names          map[string]string              // wallet address key -> party name
 	chans          map[channel.ID]*Chan
@@ -296,6 +297,17 @@ func verifyState(params *channel.Params, s *channel.State, sigs []wallet.Sig) er
 
 // Fund deposits exactly Agreement[asset][Idx] from the caller's account and
 // waits until every participant has funded.
+// FailWithdraws makes the next n Withdraw calls of party who fail without any
+// effect on the ledger (a transient fault; the party may repeat the call).
+func (l *Ledger) FailWithdraws(who string, n int) {
+	l.mu.Lock()
+	defer l.mu.Unlock()
+	if l.failWithdraw == nil {
+		l.failWithdraw = map[string]int{}
+	}
+	l.failWithdraw[who] = n
+}
+
 // SetOnFunded installs a hook that runs in every Fund call after the channel
 // is completely funded and before the call returns (nil removes it).
 func (l *Ledger) SetOnFunded(f func(who string, req channel.FundingReq)) {
@@ -605,6 +617,13 @@ func (v *View) Withdraw(ctx context.Context, req channel.AdjudicatorReq, subStat
 	l.active.Add(1)
 	defer l.active.Add(-1)
 	l.mu.Lock()
+	if l.failWithdraw[v.Who] > 0 {
+		// an injected transient failure (the chain was not reachable): nothing
+		// happened on the ledger, the call may be repeated
+		l.failWithdraw[v.Who]--
+		l.mu.Unlock()
+		return errors.New("ledger: transient failure injected by the scenario (chain not reachable)")
+	}
 	call := Call{Kind: "withdraw", Who: v.Who}
 	fail := func(kind, format string, args ...any) error {
 		msg := fmt.Sprintf(format, args...)
